@@ -157,7 +157,7 @@ fn coverage(file: &str, name: &str) -> Option<&'static str> {
         ("object_store", n) if n.starts_with("struct ObjectMeta.") || n.starts_with("struct ListResult.") => d("driven: key (head / list) compared; size / timestamps / etag / continuation are not read by the modelled code"),
         // ---------------- config.rs ----------------
         ("config", "struct WriteBufferConfig.flush_interval") | ("config", "struct WriteBufferConfig.max_size_bytes") | ("config", "struct WriteBufferConfig.max_deltas") | ("config", "struct WriteBufferConfig.backpressure_threshold_bytes") => d("driven: generated incl. 0 / 1 / max and values at the comparisons (c12x gen_wb_cfg)"),
-        ("config", "struct WriteBufferConfig.compression_enabled") | ("config", "struct CompactionConfig.compression_enabled") | ("config", "struct CheckpointConfig.compression_enabled") => d("not-driven: the `compression` feature is not built (Compression::None either way); encoding is C14's"),
+        ("config", "struct WriteBufferConfig.compression_enabled") | ("config", "struct CompactionConfig.compression_enabled") | ("config", "struct CheckpointConfig.compression_enabled") => d("driven: both values (generated / alternating); the `compression` feature is not built, so the flag must be behaviour-neutral here (Compression::None either way) — encoding is C14's"),
         ("config", "struct CompactionConfig.target_segment_size") | ("config", "struct CompactionConfig.min_segments_to_compact") | ("config", "struct CompactionConfig.max_segments_per_compaction") | ("config", "struct CompactionConfig.tombstone_ttl") => d("driven: c13 random_case (0, 1, huge, Duration::MAX, 2^63, 2^64+384 ms …)"),
         ("config", "struct CompactionConfig.max_segments") => d("driven: c13x if_needed_case (len-1 / len / len+1 / 0 / huge), worker_case; 0 = no worker in start_workers (c12x)"),
         ("config", "struct CheckpointConfig.interval") | ("config", "struct CheckpointConfig.min_segments") => d("driven: c11x SHOULDCHK (at the comparisons, Duration::MAX, 2^64+384 ms)"),
@@ -200,7 +200,7 @@ fn coverage(file: &str, name: &str) -> Option<&'static str> {
         ("compaction", "Compactor::stats") | ("compaction", "Compactor::config") => d("not-applicable: accessor"),
         ("compaction", "CompactionWorker::new") | ("compaction", "CompactionWorker::run") | ("compaction", "CompactionWorkerHandle::shutdown") => d("driven: c13x worker_case under the paused clock"),
         ("compaction", "CompactionConfig::test") => d("not-applicable: preset constructor"),
-        ("compaction", "struct CompactionConfig.compression_enabled") => d("not-driven: the `compression` feature is not built"),
+        ("compaction", "struct CompactionConfig.compression_enabled") => d("driven: both values (alternating); the `compression` feature is not built: behaviour-neutral here"),
         ("compaction", "struct CompactionConfig.target_segment_size") | ("compaction", "struct CompactionConfig.max_segments") | ("compaction", "struct CompactionConfig.min_segments_to_compact") | ("compaction", "struct CompactionConfig.max_segments_per_compaction") | ("compaction", "struct CompactionConfig.tombstone_ttl") => d("driven: generated incl. extremes (c13 random_case, c13x max_segments)"),
         ("compaction", n) if n.starts_with("enum CompactionError::") => d("driven: NothingToCompact, Io, Manifest by configuration and faults; Segment: serialisation cannot fail for the generated values"),
         ("compaction", n) if n.starts_with("struct CompactionResult.") || n.starts_with("struct CompactionStats.") => d("driven: segments_removed / segment_created / deltas_after / tombstones_removed compared; byte counters not"),
@@ -223,7 +223,9 @@ fn files_of(prop: &str) -> &'static [&'static str] {
 /// every name the table knows for a file (to notice entries that went stale)
 const ANCHORS: &[(&str, &str)] = &[
     ("persistence", "StreamingPersistence::flush"), ("persistence", "StreamingPersistence::push"), ("persistence", "StreamingPersistence::should_flush"),
-    ("integration", "PersistenceActor::run"), ("integration", "fn run_delta_sink_bridge"), ("integration", "StreamingIntegration::start_workers"), ("integration", "WorkerHandles::shutdown"), ("integration", "enum PersistenceMessage::PushDeltas"),
+    // only PUBLIC items: a private task body / helper (PersistenceActor::run, run_delta_sink_bridge) may be
+    // renamed or inlined without changing behaviour — its absence is not a stale table
+    ("integration", "StreamingIntegration::start_workers"), ("integration", "WorkerHandles::shutdown"), ("integration", "enum PersistenceMessage::PushDeltas"),
     ("write_buffer", "WriteBuffer::flush"), ("write_buffer", "FlushWorker::run"),
     ("delta_sink", "DeltaSinkSender::send"), ("delta_sink", "PersistenceWorker::run"),
     ("object_store", "LocalFsObjectStore::put"), ("object_store", "LocalFsObjectStore::rename"), ("object_store", "InMemoryObjectStore::put"),
@@ -252,7 +254,7 @@ pub fn audit(prop: &str) -> serde_json::Value {
             "1 entry paths": "CLOSED: every pub fn / enum variant / struct field of recovery.rs, manifest.rs, checkpoint.rs enumerated from the source (stream_api.rs) and accounted for; newly driven: recover_with_progress (RECP + progress oracle), needs_recovery, ManifestManager::{load_or_create, add_segment, update, exists}, Manifest::{segments_after, totals}, CheckpointManager::{create_checkpoint, load_checkpoint, should_checkpoint}; the PRODUCTION start-up sequence (recover + apply, then WAL through a second apply_recovered_state) = APPLY2. OPEN: CheckpointManager::new (= with_time_source), accessors",
             "2 input alphabet": "CLOSED: keys '', non-ASCII, colliding; values empty / binary / hash / counter / set kinds (c07 generator 1/10), expiries, vector clocks; a 256 KiB value under a 4 KiB key through flush + every crash point (c12 corpus). OPEN: keys are Rust Strings (non-UTF-8 keys cannot be constructed)",
             "3 comparisons at equality": "CLOSED: add_segment id at / above next_segment_id (MMADD), checkpoint last_segment_id = / above next-1 (covering_checkpoint), segments_after at max_timestamp -1/0/+1, should_checkpoint at min_segments -1/0/+1 and at timestamp + interval -1/0/+1, recovery's `id > last` by covered segments, WAL truncate_before at a stamp -1/0/+1. OPEN: ties in min_timestamp between segments occur by duplication, not targeted",
-            "4 configuration": "CLOSED: CheckpointConfig.interval / min_segments generated incl. 0, Duration::MAX, 2^64+384 ms (as u64 truncation modelled). OPEN: compression_enabled (feature not built)",
+            "4 configuration": "CLOSED: CheckpointConfig.interval / min_segments generated incl. 0, Duration::MAX, 2^64+384 ms (as u64 truncation modelled). compression_enabled both values (feature not built: behaviour-neutral)",
             "5 capacity thresholds": "OPEN: u64 ids / versions near overflow are not generated (Nat in the model); {:08} id formatting beyond 8 digits",
             "6 fault kinds": "CLOSED: every get of a recovery fails / returns empty / truncated / flipped bodies (recover_under_read_faults), missing and torn segments, torn checkpoint; OPEN: WAL file-level faults are C09/C10's",
             "7 history shapes": "CLOSED: second recovery, second application, checkpoint before first flush, covered segments, WAL that went through truncate_before with interleaved stamps (middle file deleted: hole in the sequence) — round-5 seed C11-wal-replay-stops-at-sequence-hole; restart on LocalFs (c12fs)",
@@ -265,7 +267,7 @@ pub fn audit(prop: &str) -> serde_json::Value {
             "1 entry paths": "CLOSED: persistence.rs, integration.rs, write_buffer.rs, delta_sink.rs, object_store.rs, config.rs, clock.rs enumerated from the source; newly driven: the REAL worker pipeline of start_workers (sink, bridge, bounded mailbox, actor; shutdown; compaction worker wiring), should_flush / back-pressure of push, WriteBuffer + FlushWorker + both PersistenceWorkers, LocalFsObjectStore (every trait fn), create_integration / new_local_fs, recover on LocalFs. OPEN: PersistenceMessage::{PushDelta, Flush} and PersistenceActorHandle::{push_delta, flush} have no producer reachable from outside the module (modelled and covered by the theorems, not driven); S3 (feature-gated)",
             "2 input alphabet": "CLOSED: key byte lengths 0..11 incl. multi-byte characters (estimate_delta_size reads len()), 256 KiB value / 4 KiB key / empty key and value through flush, torn put, compaction and every crash point",
             "3 comparisons at equality": "CLOSED: buffer_size >= max_size_bytes / backpressure_threshold_bytes (key length aimed at limit-1 / limit / limit+1), len >= max_deltas, has_elapsed with the clock advanced to interval-1 / interval / interval+1 ms incl. sub-millisecond intervals; mailbox length = capacity (10000 queued, the next try_send dropped)",
-            "4 configuration": "CLOSED: all four WriteBufferConfig fields generated incl. 0 / 1 / usize::MAX / Duration::ZERO / Duration::MAX; StreamingConfig.compaction.* copied into the worker's config checked field by field (ACOMPACT). OPEN: compression_enabled; in the real pipeline only flush_interval 0 / 'never' are deterministic (real-time Instant in the bridge), the other intervals are tied through the step functions on the virtual clock",
+            "4 configuration": "CLOSED: all four WriteBufferConfig fields generated incl. 0 / 1 / usize::MAX / Duration::ZERO / Duration::MAX; StreamingConfig.compaction.* copied into the worker's config checked field by field (ACOMPACT); compression_enabled both values (feature not built: behaviour-neutral). OPEN: in the real pipeline only flush_interval 0 / 'never' are deterministic (real-time Instant in the bridge), the other intervals are tied through the step functions on the virtual clock",
             "5 capacity thresholds": "CLOSED: PERSISTENCE_CHANNEL_CAPACITY read from the source, compared with the model (XCAP) and crossed by a generated case. OPEN: usize overflow of buffer_size (checked_add panic) unreachable",
             "6 fault kinds": "CLOSED: error without effect and error after a torn object on every put (segment, temp manifest), get / rename / delete errors, read corruption kinds, death at every call; start_workers with an unreadable manifest; failed flushes inside the actor (retried by the next trigger, kept at shutdown). OPEN: LocalFs-specific errno classes (permission, ENOSPC) are not injected; power loss (no fsync in LocalFs put) is outside the property (process death)",
             "7 history shapes": "CLOSED: restart on every crash image that holds an orphan, restart of the worker pipeline on LocalFs, sends after shutdown, last batch left in the sink at shutdown, emptied-then-refilled buffer after failed flushes",
@@ -278,7 +280,7 @@ pub fn audit(prop: &str) -> serde_json::Value {
             "1 entry paths": "CLOSED: compaction.rs enumerated from the source; newly driven: needs_compaction, compact_if_needed, CompactionWorker::{new, run}, CompactionWorkerHandle::shutdown, Compactor::new through start_workers",
             "2 input alphabet": "CLOSED: as C11 (shared generators): hashes, tombstones, expiries, vector clocks, stamps near 2^63 and u64::MAX",
             "3 comparisons at equality": "CLOSED: segments.len() >= max_segments at len-1 / len / len+1, size_bytes < target_segment_size with the target at a listed segment's size -1/0/+1 (sizes from a dry run), time < tombstone_cutoff with the cutoff at a tombstone's stamp -1/0/+1 through several (now, ttl) pairs, candidates vs min_segments_to_compact / max_segments_per_compaction incl. 0 / 1 / huge",
-            "4 configuration": "CLOSED: every CompactionConfig field generated incl. extremes (max_segments newly); OPEN: compression_enabled",
+            "4 configuration": "CLOSED: every CompactionConfig field generated incl. extremes (max_segments newly); compression_enabled both values (feature not built: behaviour-neutral)",
             "5 capacity thresholds": "OPEN: record_count as u32, u64 id overflow — unreachable sizes",
             "6 fault kinds": "CLOSED: one read of the pass failing / empty / truncated / flipped; store faults inside histories; panics of compact() caught and reported",
             "7 history shapes": "CLOSED: repeated compactions (compactions of compacted segments, 2..5 passes), compact and compact_if_needed mixed, failed flush in between, emptied-then-refilled manifest, worker passes separated by flushes; exactness oracle of history_exact after every pass",
@@ -334,7 +336,7 @@ pub fn report(out: &mut Out, prop: &str) {
         "C12" => require_cells(out, prop, &[
             "x:case:step-functions", "x:case:write-buffer", "x:case:workers:interval-never", "x:case:workers:interval-zero",
             "x:case:workers:mailbox-capacity-crossed", "x:case:workers:start-fails-on-manifest-load-error", "x:case:workers:with-compaction-worker",
-            "x:case:legacy:persistence-worker", "x:case:legacy:flush-worker", "x:case:legacy:delta-sink-worker",
+            "x:case:legacy:persistence-worker", "j:case:variants", "j:case:flips:generated", "j:case:flips:typical", "x:case:prefix", "x:case:lives:2", "x:lives:end:death-at-call", "x:lives:end:clean-shutdown", "x:lives:compaction-pass", "x:case:legacy:flush-worker", "x:case:legacy:delta-sink-worker",
             "x:push:backpressure", "x:push:aimed-at-byte-threshold", "x:advance:aimed-at-interval", "x:flush:err", "x:should_flush:true", "x:should_flush:false",
             "x:actor:last-batch-drained-at-shutdown", "x:capacity:batches-dropped-by-full-mailbox",
             "fs:case:store-differential(InMemory,LocalFs,FaultStore vs model)", "fs:case:crash-images-on-LocalFs", "fs:case:workload-on-LocalFs-vs-InMemory",
